@@ -15,7 +15,8 @@ import EpModel.Spec.Reassembly
                       | t:<minTs>                      retain(|t| t >= minTs)
               key     = <4|6>,<src hex>,<dst hex>,<identification>,<protocol>,<vlans>,<channel>   vlans = `-` | id(+id){0,2}
               → per item `none` / `ok(proto,LenSource,hex)` / `err(…)` / `ret(n)` / `retained(active)`, `;`-joined,
-                then `|active=…,fdata=[sorted lengths],fsec=[sorted lengths]`
+                then `|active=…,fdata=…,fsec=…` (numbers of entries; which recycled vector is
+                popped after a `retain` depends on the hash order, so their lengths are not printed)
    spec.frag.pool <history>                     the same history through Spec.Reasm (per item outputs only) -/
 namespace EpModel.Driver.Frag
 open EpModel EpModel.Driver EpModel.Defrag
@@ -115,16 +116,8 @@ def showOut : Out → String
   | .returned n => s!"ret({n})"
   | .retained n => s!"retained({n})"
 
-def insertSorted (x : Nat) : List Nat → List Nat
-  | [] => [x]
-  | y :: ys => if x ≤ y then x :: y :: ys else y :: insertSorted x ys
-
-def sortNats (xs : List Nat) : List Nat := xs.foldr insertSorted []
-
-def showNats (xs : List Nat) : String := "[" ++ joinWith "," (xs.map toString) ++ "]"
-
 def showPool (p : Pool) : String :=
-  s!"active={p.active.length},fdata={showNats (sortNats (p.finishedDataBufs.map List.length))},fsec={showNats (sortNats (p.finishedSectionBufs.map List.length))}"
+  s!"active={p.active.length},fdata={p.finishedDataBufs.length},fsec={p.finishedSectionBufs.length}"
 
 /-! #### spec.frag.pool -/
 
